@@ -87,6 +87,7 @@ class Conn:
         self.written = {'c': [], 's': []}       # bytes objects written BY that side, in order
         self.delivered = {'c': [], 's': []}     # sizes of the segments delivered TO that side
         self.lost = {'c': 0, 's': 0}            # bytes written by that side that could never be delivered
+        self.offset = {'c': 0, 's': 0}          # stream offset handed to SEG events travelling TO that side
 
     def end(self, side):
         return self.client if side == 'c' else self.server
@@ -248,8 +249,9 @@ class PipeTransport(transports._FlowControlMixin, transports.Transport):
             p = self.peer
             p.outq[0:0] = data
             p.segs.extendleft(reversed(segs))
-            self.conn.delivered[self.side].pop()
+            self.conn.offset[self.side] -= len(data)
             return
+        self.conn.delivered[self.side].append(len(data))
         try:
             self._protocol.data_received(data)
         except (SystemExit, KeyboardInterrupt):
@@ -454,8 +456,7 @@ class TcpFabric:
                     seg[1] -= left
                     taken.append([seg[0], left])
                     left = 0
-            ev.conn_obj = None
-            r.conn.delivered[r.side].append(n)
+            r.conn.offset[r.side] += n
             self.call_soon(r._read_ready, data, taken)
             return n
         if ev.kind == 'EOF':
@@ -528,3 +529,118 @@ class TcpLoop(TcpFabric, VLoop):
     def __init__(self, **kw):
         super().__init__(**kw)
         self._tcp_init()
+
+
+def selftest():
+    """Exercises every rule of A.2 on plain asyncio protocols (no lbry code).  Raises AssertionError."""
+    import asyncio
+    import io
+
+    class P(asyncio.Protocol):
+        def __init__(self, boom=False):
+            self.t, self.got, self.ev, self.boom = None, [], [], boom
+
+        def connection_made(self, t):
+            self.t = t
+            self.ev.append('made')
+
+        def data_received(self, d):
+            if self.boom:
+                raise ValueError('boom')
+            self.got.append(bytes(d))
+
+        def eof_received(self):
+            self.ev.append('eof')
+
+        def connection_lost(self, exc):
+            self.ev.append(('lost', type(exc).__name__ if exc else None))
+
+    def world(boom=False):
+        loop = TcpLoop().activate()
+        servers = []
+
+        def fac():
+            servers.append(P(boom))
+            return servers[-1]
+        loop.run(loop.create_server(fac, '0.0.0.0', 80))
+        return loop, servers
+
+    # ordered, lossless, harness-chosen sizes; close = flush-then-FIN
+    loop, servers = world()
+    c = P()
+    t = loop.create_task(loop.create_connection(lambda: c, 'h', 80))
+    loop.settle()
+    assert not t.done() and [e.kind for e in loop.tcp_enabled()] == ['CONNECT']
+    loop.tcp_fire(loop.tcp_enabled()[0])
+    loop.settle()
+    assert t.done() and c.ev == ['made'] and servers[0].ev == ['made']
+    c.t.write(b'abc')
+    c.t.write(b'defg')
+    c.t.close()
+    loop.settle()
+    assert c.ev[-1] == ('lost', None) and c.t.is_closing()
+    for n in (2, 1, None):
+        ev = loop.tcp_enabled()[0]
+        assert ev.kind == 'SEG' and ev.side == 's'
+        loop.tcp_fire(ev, n)
+        loop.settle()
+    assert servers[0].got == [b'ab', b'c', b'defg']
+    ev = loop.tcp_enabled()[0]
+    assert ev.kind == 'EOF'
+    loop.tcp_fire(ev)
+    loop.settle()
+    assert servers[0].ev == ['made', 'eof', ('lost', None)] and not loop.tcp_enabled()
+    loop.shutdown()
+
+    # exception escaping data_received: recorded, reported, transport force-closed, connection_lost(exc), peer sees EOF
+    loop, servers = world(boom=True)
+    c = P()
+    loop.create_task(loop.create_connection(lambda: c, 'h', 80))
+    loop.tcp_run_default(timers=False)
+    c.t.write(b'x')
+    loop.tcp_run_default(timers=False)
+    assert servers[0].ev[-1] == ('lost', 'ValueError') and len(loop.tcp_errors) == 1
+    assert any(isinstance(x.get('exception'), ValueError) for x in loop.exc_contexts)
+    assert c.ev[-2:] == ['eof', ('lost', None)]
+    loop.shutdown()
+
+    # abort = RESET: in-flight bytes discarded, peer gets ConnectionResetError; writing to a dead peer arms RESET
+    loop, servers = world()
+    c = P()
+    loop.create_task(loop.create_connection(lambda: c, 'h', 80))
+    loop.tcp_run_default(timers=False)
+    c.t.write(b'never delivered')
+    c.t.abort()
+    loop.tcp_run_default(timers=False)
+    assert servers[0].got == [] and servers[0].ev[-1] == ('lost', 'ConnectionResetError')
+    loop.shutdown()
+
+    # refused; connect latency is an event, a timeout can win
+    loop = TcpLoop().activate()
+    t = loop.create_task(loop.create_connection(P, 'nobody', 1))
+    loop.tcp_run_default(timers=False)
+    assert isinstance(t.exception(), ConnectionRefusedError)
+    t = loop.create_task(asyncio.wait_for(loop.create_connection(P, 'nobody', 1), 3))
+    loop.settle()
+    loop.fire_timer()
+    loop.settle()
+    assert isinstance(t.exception(), asyncio.TimeoutError) and not loop.tcp_pending and loop.time() == 3
+    loop.shutdown()
+
+    # sendfile runs asyncio's fallback over the pipe; reading is paused meanwhile
+    loop, servers = world()
+    c = P()
+    loop.create_task(loop.create_connection(lambda: c, 'h', 80))
+    loop.tcp_run_default(timers=False)
+    payload = bytes(range(256)) * 300
+    t = loop.create_task(loop.sendfile(servers[0].t, io.BytesIO(payload)))
+    loop.drain()
+    assert not servers[0].t.is_reading()
+    c.t.write(b'held back')
+    assert all(e.side != 's' for e in loop.tcp_enabled())
+    loop.tcp_run_default(until=t.done, timers=False)
+    assert t.result() == len(payload) and servers[0].t.is_reading()
+    loop.tcp_run_default(timers=False)
+    assert b''.join(c.got) == payload and servers[0].got == [b'held back']
+    loop.shutdown()
+    return True
